@@ -43,4 +43,84 @@ theorem xopen_text_default_encoding (truth : Term → Bool) :
     cases truth (Term.app ".endswith" [Term.app "str" [Term.sym "path"], Term.sym "'.gz'"]) <;>
     cases truth (Term.app ".endswith" [Term.app "str" [Term.sym "path"], Term.sym "'.xz'"]) <;> rfl
 
+/-! ### the writers and the readers that are their mirror images -/
+
+def xo (mode : String) (extra : List Term := []) : Term := Term.app "with" [Term.app "util.xopen" ([Term.sym "path", Term.sym mode] ++ extra)]
+def enc : Term := Term.app "=encoding" [Term.sym "encoding"]
+def mkdirs : Term := Term.app "util.makedirs_for_file" [Term.sym "path"]
+
+/-- **pickle**: every column written as a plain NumPy array OF ITS OWN DTYPE (`np.array(v, v.dtype)`: a string column stays a
+    string column, an object column an object column) through `xopen(path, "wb")` (so the suffix decides the compression);
+    read back by `pickle.load` from `xopen(path, "rb")` into the constructor — no conversion by content on either side. -/
+theorem pickle_code (truth : Term → Bool) :
+    DataFrame_write_pickle truth = Out.fall [mkdirs, xo "'wb'",
+      Term.app "pickle.dump" [Term.app "DictComp" [Term.app "pair" [Term.sym "k", Term.app "np.array" [Term.sym "v", Term.app ".dtype" [Term.sym "v"]]],
+        Term.app "in" [Term.app "tuple" [Term.sym "k", Term.sym "v"], Term.app ".items" [Term.sym "self"], Term.app "if" []]], xo "'wb'", Term.sym "pickle.HIGHEST_PROTOCOL"]] ∧
+    DataFrame_read_pickle truth = Out.ret [xo "'rb'"] (Term.app "cls" [Term.app "pickle.load" [xo "'rb'"]]) ∧
+    ListOfDicts_write_pickle truth = Out.fall [mkdirs, xo "'wb'",
+      Term.app "pickle.dump" [Term.app "ListComp" [Term.app "dict()" [Term.sym "x"], Term.app "in" [Term.sym "x", Term.sym "self", Term.app "if" []]],
+        xo "'wb'", Term.sym "pickle.HIGHEST_PROTOCOL"]] ∧
+    ListOfDicts_read_pickle truth = Out.ret [xo "'rb'"] (Term.app "cls" [Term.app "pickle.load" [xo "'rb'"]]) := ⟨rfl, rfl, rfl, rfl⟩
+
+/-- **NPZ**: the columns by name through `np.savez` / `np.savez_compressed`, read back by `np.load` into the constructor. -/
+theorem npz_code (truth : Term → Bool) :
+    DataFrame_write_npz truth = Out.fall [mkdirs, Term.app "call"
+      [if truth (Term.sym "compress") then Term.sym "np.savez_compressed" else Term.sym "np.savez", Term.sym "path", Term.app "=**" [Term.sym "self"]]] ∧
+    DataFrame_read_npz truth =
+      let f := Term.app "with" [Term.app "np.load" [Term.sym "path", Term.app "=allow_pickle" [Term.sym "allow_pickle"]]]
+      Out.ret [f] (Term.app "cls" [Term.app "=**" [f]]) := ⟨rfl, rfl⟩
+
+/-- **Parquet**: the Arrow table of the frame written with the caller's options only (no flavor / option of our own). -/
+theorem write_parquet_code (truth : Term → Bool) :
+    DataFrame_write_parquet truth = Out.fall [mkdirs,
+      Term.app "pq.write_table" [Term.app ".to_arrow" [Term.sym "self"], Term.sym "path", Term.app "=**" [Term.sym "kwargs"]]] := rfl
+
+/-- **CSV (data frame)**: Arrow writes UTF-8 through `xopen(path, "wb")` with the header / separator options; for any other
+    encoding the WHOLE file is read back as UTF-8 text and rewritten in the requested encoding through `xopen` again (so
+    compression by suffix applies to the rewritten file too). -/
+theorem df_write_csv_code (truth : Term → Bool) :
+    DataFrame_write_csv truth =
+      let first := [mkdirs, xo "'wb'", Term.app "csv.write_csv" [Term.app ".to_arrow" [Term.sym "self"], xo "'wb'",
+        Term.app "=write_options" [Term.app "csv.WriteOptions" [Term.app "=include_header" [Term.sym "header"], Term.app "=delimiter" [Term.sym "sep"],
+          Term.app "=quoting_style" [Term.sym "'needed'"]]]]]
+      if truth (Term.app "NotEq" [Term.app "codecs.lookup" [Term.sym "encoding"], Term.app "codecs.lookup" [Term.sym "'utf-8'"]]) then
+        let src := xo "'rt'" [Term.app "=encoding" [Term.sym "'utf-8'"]]
+        Out.fall (first ++ [src, xo "'wt'" [enc], Term.app ".write" [xo "'wt'" [enc], Term.app ".read" [src]]])
+      else Out.fall first := by
+  unfold DataFrame_write_csv
+  dsimp only [xo, mkdirs, enc]
+  split <;> rfl
+
+/-- **JSON**: the frame's records through the ListOfDicts writer, which streams `JSONEncoder(**kwargs).iterencode(self)` into
+    `xopen(path, "wt", encoding=…)` and ends the file with a newline. -/
+theorem write_json_code (truth : Term → Bool) :
+    DataFrame_write_json truth = Out.ret [] (Term.app ".write_json" [Term.app ".to_list_of_dicts" [Term.sym "self"], Term.sym "path", enc, Term.app "=**" [Term.sym "kwargs"]]) ∧
+    ListOfDicts_write_json truth =
+      let f := xo "'wt'" [enc]
+      Out.fall [Term.app ".setdefault" [Term.sym "kwargs", Term.sym "'default'", Term.sym "str"],
+                Term.app ".setdefault" [Term.sym "kwargs", Term.sym "'ensure_ascii'", Term.sym "False"],
+                Term.app ".setdefault" [Term.sym "kwargs", Term.sym "'indent'", Term.int 2], mkdirs, f,
+                Term.app "for" [Term.sym "chunk", Term.app ".iterencode" [Term.app "json.JSONEncoder" [Term.app "=**" [Term.sym "kwargs"]], Term.sym "self"],
+                  Term.app "block" [Term.app ".write" [f, Term.sym "chunk"]]],
+                Term.app ".write" [f, Term.sym "'\\n'"]] := ⟨rfl, rfl⟩
+
+/-- **CSV (list of dicts)**: a `csv.DictWriter` over ALL keys of the list (`self.keys()`): every row is written BY KEY in
+    that one field order (an item's own key order does not matter), a key the item lacks as an empty cell
+    (`{**dict.fromkeys(keys), **item}`); an empty list is refused. -/
+theorem lod_write_csv_code (truth : Term → Bool) :
+    ListOfDicts_write_csv truth =
+      if truth (Term.sym "self") then
+        let keys := Term.app "list()" [Term.app ".keys" [Term.sym "self"]]
+        let f := xo "'wt'" [enc]
+        let writer := Term.app "csv.DictWriter" [f, keys, Term.app "=dialect" [Term.sym "'unix'"], Term.app "=delimiter" [Term.sym "sep"],
+          Term.app "=quoting" [Term.sym "csv.QUOTE_MINIMAL"]]
+        Out.fall [mkdirs, f, if truth (Term.sym "header") then Term.app ".writeheader" [writer] else Term.sym "None",
+          Term.app "for" [Term.sym "item", Term.sym "self", Term.app "block"
+            [Term.app "assign" [Term.sym "item", Term.app "dict" [Term.app "**" [Term.app "dict.fromkeys" [keys]], Term.app "**" [Term.sym "item"]]],
+             Term.app ".writerow" [writer, Term.sym "item"]]]]
+      else Out.raise [] "ValueError" := by
+  unfold ListOfDicts_write_csv
+  dsimp only [xo, mkdirs, enc]
+  split <;> simp_all
+
 end DI.Tie.C12
